@@ -150,6 +150,26 @@ def run(ctx):
     main = [Z.decl("L", Z.lst(Z.NULL, Z.num(1), Z.NULL)), Z.disp(Z.idx(L, Z.num(1)), Z.idx(L, Z.num(2)), Z.idx(L, Z.num(3)), L), Z.ex(Z.asg(Z.idx(L, Z.num(2)), Z.NULL)), Z.ex(Z.mcall(L, "@append", Z.NULL)),
             Z.disp(L, Z.idx(L, Z.num(4))), Z.iter_(["I", "V"], L, [Z.disp(Z.var("I"), Z.var("V"))]), Z.ex(Z.asg(Z.idx(L, Z.num(1)), Z.num(7))), Z.disp(Z.idx(L, Z.num(1)), Z.idx(L, Z.num(3))), Z.ex(Z.idx(L, Z.num(5))), Z.mark("dead")]
     p = Z.prog(main); p["tag"] = "null-values:list"; lprogs.append(p)
+    # a NUMBER held in a variable and stored into a collection (后增, 前增, 写入, element / key assignment, a literal that mentions it - also twice):
+    # the position holds that number; 自增 / 自减 on the variable, or on one stored position, changes nothing else
+    N, L2, D2 = Z.var("N"), Z.var("L"), Z.var("D")
+    def inc(tgt, by=1, m="@incr"): return Z.ex(Z.mcall(tgt, m, Z.num(by)))
+    stores = {
+        "append": [Z.decl("L", Z.lst(Z.num(1))), Z.ex(Z.mcall(L2, "@append", N)), Z.ex(Z.mcall(L2, "@append", N))],
+        "prepend": [Z.decl("L", Z.lst(Z.num(1))), Z.ex(Z.mcall(L2, "@prepend", N)), Z.ex(Z.mcall(L2, "@prepend", N))],
+        "element-assign": [Z.decl("L", Z.lst(Z.num(1), Z.num(2), Z.num(3))), Z.ex(Z.asg(Z.idx(L2, Z.num(1)), N)), Z.ex(Z.asg(Z.idx(L2, Z.num(3)), N))],
+        "literal": [Z.decl("L", Z.lst(N, Z.num(2), N))],
+        "copy-of-literal": [Z.decl("G", Z.lst(N, N)), Z.decl("L", Z.var("G"))],
+    }
+    for sn, stm in stores.items():
+        main = [Z.decl("N", Z.num(5))] + json.loads(json.dumps(stm)) + [Z.disp(L2, N), inc(N), Z.disp(L2, N), inc(Z.idx(L2, Z.num(1)), 10), Z.disp(L2, N), inc(N, 3, "@decr"), Z.disp(L2, N),
+                                                                       Z.iter_(["I", "V"], L2, [Z.disp(Z.var("I"), Z.var("V"))]), Z.ex(Z.num(0))]
+        p = Z.prog(main); p["tag"] = "number-variable-stored:list:" + sn; lprogs.append(p)
+    for sn, stm in (("put", [Z.decl("D", Z.dct(["a"], [Z.num(1)])), Z.ex(Z.mcall(D2, "@put", Z.s("k"), N)), Z.ex(Z.mcall(D2, "@put", Z.s("j"), N))]),
+                   ("key-assign", [Z.decl("D", Z.dct(["a"], [Z.num(1)])), Z.ex(Z.asg(Z.idx(D2, Z.s("k")), N)), Z.ex(Z.asg(Z.idx(D2, Z.s("j")), N))]),
+                   ("literal", [Z.decl("D", Z.dct(["k", "j"], [N, N]))])):
+        main = [Z.decl("N", Z.num(5))] + json.loads(json.dumps(stm)) + [Z.disp(D2, N), inc(N), Z.disp(D2, N), inc(Z.idx(D2, Z.s("k")), 10), Z.disp(D2, N, Z.idx(D2, Z.s("j"))), Z.ex(Z.num(0))]
+        p = Z.prog(main); p["tag"] = "number-variable-stored:dict:" + sn; lprogs.append(p)
     lstats, _, _ = Z.run_family(ctx, znh, lprogs, "c12lit")
     # ---- trace validation of long random histories recorded from the real value types
     nh, ln = (30, 500) if ctx.tier == "quick" else (150, 2000)
